@@ -143,15 +143,19 @@ class Merger(object):
         """
         spike_clusters_l = _load_multiple_files('spike_clusters.npy', self.subdirs)
         spike_templates_l = _load_multiple_files('spike_templates.npy', self.subdirs)
+        # Number of templates of each probe: the number of rows of its templates.npy (a template
+        # without any spike still takes a row of the merged templates.npy).
+        n_templates_l = [
+            int(np.load(str(subdir / 'templates.npy'), mmap_mode='r').shape[0])
+            for subdir in self.subdirs]
         self.cluster_offsets = []
         self.template_offsets = []
         cluster_probes_l = []
         coffset = 0
         toffset = 0
-        for i, (subdir, sc, st) in enumerate(
-                zip(self.subdirs, spike_clusters_l, spike_templates_l)):
+        for i, (subdir, sc, st, n_tmp) in enumerate(
+                zip(self.subdirs, spike_clusters_l, spike_templates_l, n_templates_l)):
             n_clu = int(np.max(sc)) + 1
-            n_tmp = int(np.max(st)) + 1
             sc += coffset
             st += toffset
             self.cluster_offsets.append(coffset)
